@@ -10,6 +10,9 @@ use crate::core::prng::Rng;
 pub enum ChOp {
     /// observe one base element (canonical value)
     Observe(u64),
+    /// observe one base element that is a compile-time constant of the circuit (the builder may
+    /// fold it; zero is the interesting value: it is also what padding looks like)
+    ObserveConst(u64),
     /// observe one extension element (basis coefficients)
     ObserveExt(Vec<u64>),
     Sample,
@@ -35,7 +38,8 @@ pub fn gen_history(rng: &mut Rng, order: u64, d: usize, rate: usize, max_len: us
     };
     while ops.len() < n {
         match rng.below(100) {
-            0..=29 => ops.push(ChOp::Observe(val(rng))),
+            0..=24 => ops.push(ChOp::Observe(val(rng))),
+            25..=29 => ops.push(ChOp::ObserveConst(if rng.chance(2, 3) { 0 } else { val(rng) })),
             30..=37 => {
                 // fill the buffer exactly to RATE, or to RATE-1, or a partial run
                 let k = *rng.pick(&[rate, rate - 1, rate + 1, 2 * rate, 1, 3]);
@@ -166,6 +170,14 @@ macro_rules! chal_universe {
                             RecursiveChallenger::<F, EF>::observe(&mut cc, cb, t);
                             obs(&mut inb, &mut outb, &mut perms);
                             states.push((inb, outb, 0));
+                        }
+                        ChOp::ObserveConst(v) => {
+                            let fv = F::from_u64(*v % F::ORDER_U64);
+                            native.observe(fv);
+                            let t = cb.alloc_const(EF::from(fv), "observed constant");
+                            RecursiveChallenger::<F, EF>::observe(&mut cc, cb, t);
+                            obs(&mut inb, &mut outb, &mut perms);
+                            states.push((inb, outb, 7));
                         }
                         ChOp::ObserveExt(c) => {
                             let ev = ef_from(c);
